@@ -192,6 +192,7 @@ def helperKindOf (j : Json) : Option HelperKind :=
   | some "rcstate" => some .rcstate
   | some "vret" => some .vret
   | some "counter" => some .counter
+  | some "wr" => some .wr
   | some "macro" => (fld j "sig").map (fun s => .macroH (macroSigOf s))
   | _ => none
 
